@@ -135,22 +135,37 @@ def run_harnesses(crate_dir, names, slot, jobs, timeout, harness_timeout, log, e
     return res, dt, txt
 
 
-def playback(crate_dir, lib_text, name, slot, timeout, log_prefix):
+def playback(crate_dir, lib_text, name, slot, timeout, log_prefix, descs=()):
     """kani concrete playback for one failed harness, then a native run of the printed test.
-    -> {"test": text, "values": [[bytes]], "native": "reproduced: <msg>" | "passes natively" | "not run: ..."}"""
-    out = {"test": None, "values": None, "native": "not run"}
+    descs: descriptions of the failed checks of interest (the test printed for one of them is used).
+    -> {"test": text, "values": [[bytes]], "check": desc, "native": "reproduced: <msg>" | "passes natively" | "diverged: ..." | "not run: ..."}"""
+    out = {"test": None, "values": None, "native": "not run", "check": None}
     cmd = ["cargo", "kani", "--target-dir", os.path.join(WORK, "slot%d" % slot), "--output-format", "terse",
            "-Z", "stubbing", "-Z", "concrete-playback", "--concrete-playback=print", "--exact", "--harness", MODPATH + name]
     rc, txt, dt = vlib.run_cmd(cmd, cwd=crate_dir, timeout=timeout, mem_gb=12, log=log_prefix + "_print.log",
                                env={"CARGO_NET_OFFLINE": "true"})
-    m = re.search(r"```\n(.*?)```", txt, re.S)
-    if not m:
-        out["native"] = "not run: kani printed no concrete playback test"
+    tests = re.findall(r"```\n(.*?)```", txt, re.S)
+    # one test is printed per failed check and per satisfied cover: take the one of a failed check of interest
+    cand = [t for t in tests if "Check for `cover`" not in t]
+    pick = None
+    for dsc in descs:
+        for t in cand:
+            if dsc[:60] in t:
+                pick, out["check"] = t, dsc
+                break
+        if pick:
+            break
+    if pick is None and cand:
+        pick = cand[0]
+        m = re.search(r'Check for `\w+`: "(.*)"', pick)
+        out["check"] = m.group(1) if m else None
+    if pick is None:
+        out["native"] = "not run: kani printed no concrete playback test for a failed check"
         return out
-    test = m.group(1)
+    test = pick
     out["test"] = test
-    out["values"] = [[int(x) for x in v.split(",") if x.strip()] for v in re.findall(r"vec!\[([\d,\s]*)\]", test.split("vec![", 1)[1])] \
-        if "vec![" in test else []
+    body_vals = test.split("vec![", 1)[1] if "vec![" in test else ""
+    out["values"] = [[int(x) for x in v.split(",") if x.strip()] for v in re.findall(r"vec!\[([\d,\s]*)\]", body_vals)]
     tm = re.search(r"fn (kani_concrete_playback_\w+)\(", test)
     if not tm:
         return out
@@ -164,10 +179,17 @@ def playback(crate_dir, lib_text, name, slot, timeout, log_prefix):
     env = {"CARGO_NET_OFFLINE": "true", "CARGO_TARGET_DIR": os.path.join(WORK, "slot%d" % slot, "pb"), "RUST_BACKTRACE": "0"}
     rc, txt, dt = vlib.run_cmd(["cargo", "kani", "playback", "-Z", "concrete-playback", "--", tm.group(1), "--test-threads=1"],
                                cwd=pb_dir, timeout=timeout, log=log_prefix + "_native.log", env=env)
-    if "test result: FAILED" in txt or re.search(r"panicked at|SIGABRT|SIGSEGV|free\(\)|double free|signal: \d+", txt):
-        pm = re.search(r"panicked at [^\n]*\n([^\n]*)", txt)
-        sig = re.search(r"(free\(\)[^\n]*|double free[^\n]*|signal: \d+[^\n]*|SIGABRT|SIGSEGV)", txt)
-        out["native"] = "reproduced: " + ((pm.group(1).strip() if pm else None) or (sig.group(1) if sig else "test failed"))
+    pm = re.search(r"panicked at [^\n]*\n([^\n]*)", txt)
+    msg = pm.group(1).strip() if pm else ""
+    sig = re.search(r"(free\(\)[^\n]*|double free[^\n]*|malloc\(\)[^\n]*|corrupted[^\n]*|signal: \d+[^\n]*|SIGABRT|SIGSEGV)", txt)
+    if msg and any(msg.startswith(p) for p in ("C05|", "C06|", "C07|")):
+        out["native"] = "reproduced: the native run panics with \"%s\"" % msg[:160]
+    elif msg and out["check"] and out["check"][:40] in msg:
+        out["native"] = "reproduced: the native run panics with \"%s\"" % msg[:160]
+    elif sig and not msg:
+        out["native"] = "reproduced: the native run aborts (%s)" % sig.group(1)[:120]
+    elif msg:
+        out["native"] = "diverged: the native run panics with \"%s\" (stubs are not applied natively)" % msg[:120]
     elif "test result: ok" in txt:
         out["native"] = "passes natively"
     else:
